@@ -1,6 +1,9 @@
 (* C04 correspondence: cases observed on the real db.RevTree / Document / collection write path by
    the Go harness (harness/db/verif_c04_test.go) are re-evaluated here on the model. *)
-From SG Require Export Base.Prelude Base.Bytes C04.RevId C04.RevTree C04.DocModel.
+(* String first: the list functions exported by Prelude (length, ...) must shadow the string ones; the case files
+   written by the harness use string literals ([unB "..."%string]) for long byte strings *)
+From Coq Require Export String.
+From SG Require Export Base.Prelude Base.Bytes C04.RevId C04.RevTree C04.DocModel C04.History C04.CodecX C04.Json.
 Open Scope N_scope.
 
 Inductive case :=
@@ -16,7 +19,21 @@ Inductive case :=
 | CDb (allowC : bool) (limit : N) (steps : list (op * result * doc))
 | CBody (allowC : bool) (limit : N) (steps : list (op * N))   (* requests in commit order, each with the id of the body it carries *)
         (cur : option revid) (curBody : option N)           (* stored current revision; body id read back (None: tombstone) *)
-        (leafBodies : list (revid * N)).                    (* every live leaf with the body id read back after a revision-cache flush *)
+        (leafBodies : list (revid * N))                     (* every live leaf with the body id read back after a revision-cache flush *)
+(* ---- deepening: history queries, pruning twice / then adding, the codec with all fields and at byte level ---- *)
+| CHist (t : tree)                                          (* a RevTree (possibly with dangling parents or cycles) *)
+        (qs : list (revid * (list revid * bool) * option revid * bool))
+                                                            (* id, getHistory (ids, error?), getParent, isLeaf *)
+        (cyc : bool)                                        (* ContainsCycles *)
+        (fa : list (revid * list revid * option revid))     (* findAncestorFromSet(id, set) (acyclic trees only) *)
+| CPruneX (t : tree) (maxd : N) (res : tree)                (* tree, pruneRevisions(maxd) result *)
+          (pruned2 : N) (same2 : bool)                      (* pruning the result again: number removed, tree unchanged? *)
+          (child : rev) (ok1 ok2 : bool) (w1 w2 : option revid)
+                                                            (* addRevision(child) on the unpruned / pruned tree: accepted?, winner *)
+          (hs : list (revid * list revid * list revid))     (* per leaf of the result: getHistory before / after pruning *)
+| CXCodec (t : xtree) (bytes : list N) (back : xtree)       (* t in the order MarshalJSON wrote "revs"; its bytes; UnmarshalJSON(bytes) *)
+| CXDecode (e : rtl) (bytes : list N) (res : outcome)       (* hand-built revTreeList, its JSON, what UnmarshalJSON did *)
+| CXBytes (s : list N) (res : outcome).                     (* hand-written JSON text; what UnmarshalJSON did *)
 
 Definition ids_sub (a b : list revid) : bool := forallb (fun i => existsb (revid_eqb i) b) a.
 Definition ids_eqb (a b : list revid) : bool :=
@@ -77,6 +94,22 @@ Definition check_bodies (allowC : bool) (limit : N) (steps : list (op * N)) (cur
   && (N.of_nat (length lv) =? N.of_nat (length leafBodies))
   && forallb (fun r => option_eqb N.eqb (body_of leafBodies (rid r)) (body_of bs (rid r))) lv.
 
+Definition opt_ids_eqb (a b : list revid) : bool := list_eqb revid_eqb a b.
+
+Definition check_hist_q (t : tree) (q : revid * (list revid * bool) * option revid * bool) : bool :=
+  let '(i, (h, err), par, lf) := q in
+  let (h', err') := get_history t i in
+  opt_ids_eqb h h' && Bool.eqb err err' && opt_id_eqb par (get_parent t i) && Bool.eqb lf (is_leaf t i).
+
+(* boolean well-formedness of a stored tree (WfProofs.wf) *)
+Definition wfb (t : tree) : bool :=
+  nodupb (map rid t)
+  && forallb (fun r => (1 <=? gen (rid r))
+                       && match rpar r with Some p => contains t p && (gen p <? gen (rid r)) | None => true end) t.
+
+Definition is_modern (e : rtl) : bool :=
+  match l_bodies_old e with None => is_nil (l_chans_old e) | Some _ => false end.
+
 Definition check (c : case) : bool :=
   match c with
   | CParse s r => option_eqb pair_eqb (parse_revid s) r
@@ -105,6 +138,42 @@ Definition check (c : case) : bool :=
       match decode e with Some t' => tree_eqb res t' | None => false end
   | CDb allowC limit steps => run_db allowC limit empty_doc steps
   | CBody allowC limit steps cur curBody leafBodies => check_bodies allowC limit steps cur curBody leafBodies
+  | CHist t qs cyc fa =>
+      forallb (check_hist_q t) qs && Bool.eqb cyc (contains_cycles t)
+      && forallb (fun q => let '(i, ancs, r) := q in opt_id_eqb r (find_anc t i ancs)) fa
+  | CPruneX t maxd res pruned2 same2 child ok1 ok2 w1 w2 hs =>
+      let (t', _) := prune maxd t in
+      let (t'', n2) := prune maxd t' in
+      tree_eqb res t' && (n2 =? pruned2) && Bool.eqb same2 (tree_eqb t'' t')
+      && (match add t child with
+          | Some u => ok1 && opt_id_eqb w1 (w_id (winner_fold (leaves u)))
+          | None => negb ok1 && opt_id_eqb w1 (w_id (winner_fold (leaves t)))
+          end)
+      && (match add t' child with
+          | Some u => ok2 && opt_id_eqb w2 (w_id (winner_fold (leaves u)))
+          | None => negb ok2 && opt_id_eqb w2 (w_id (winner_fold (leaves t')))
+          end)
+      && forallb (fun q => let '(i, hb, ha) := q in
+                           opt_ids_eqb hb (fst (get_history t i)) && opt_ids_eqb ha (fst (get_history t' i))) hs
+  | CXCodec t bytes back =>
+      list_eqb N.eqb (encode_json t) bytes
+      && match decode_json bytes with
+         | Some (DOk t') => xtree_eqb back t' && xtree_eqb back (xnorm t)
+         | _ => false
+         end
+  | CXDecode e bytes res =>
+      outcome_eqb (xdecode e) res
+      && (if is_modern e then list_eqb N.eqb (print_rtl e) bytes else true)
+      && match parse_rtl bytes with Some e' => outcome_eqb (xdecode e') res | None => negb (is_modern e) end
+      && (if is_modern e
+          then Bool.eqb (arrays_wf e)
+                        (match res with
+                         | DOk t => wfb (strip t) && (length t =? length (l_revs e))%nat
+                         | _ => false
+                         end)
+          else true)
+  | CXBytes s res =>
+      match decode_json s with Some o => outcome_eqb o res | None => false end
   end.
 
 Definition mismatches (cs : list case) : list N := failing check cs.
